@@ -1202,6 +1202,14 @@ impl TcpSession {
         self.metrics.backend_id = Some(backend.borrow().backend_id.clone());
         self.metrics.backend_start();
         self.set_backend_id(backend.borrow().backend_id.clone());
+        // Keep the backend handle: `try_connect` (inside `backend_from_cluster_id`)
+        // has just counted this connection on it. Without the handle
+        // `remove_backend` could never give the connection back
+        // (`Backend::active_connections`, which the load-balancing policies
+        // read, grew by one per TCP session forever) and neither
+        // `fail_backend_connection` nor the connect-success path could reach the
+        // retry policy (a refusing backend was never put in back-off).
+        self.backend = Some(backend);
 
         // Postcondition of a successful New connect: the session is wired to
         // its freshly-registered backend token and the status reflects an
